@@ -68,7 +68,7 @@ def scripts0(dims, V, rng, quick):
             for s in tri:
                 if G.ext_of(s, n) == e:
                     pairs.append((d, s))
-        cap = 360 if quick else 3000
+        cap = 240 if quick else 3000
         if len(pairs) > cap:
             pairs = rng.sample(pairs, cap)
         for i, (d, s) in enumerate(pairs):
@@ -129,6 +129,34 @@ def sym_groups(tier, seed):
             calls = ['VWF(Sym%d, %s, %s, %s, "%s");' % (sz, c05.tup(rd), c05.tup(dims), fs, s) for s in sc]
             groups.append({"key": "%s/sz%d/vea%d/%s" % (isa, sz, vea, name), "header": "view_write_sym.h", "isa": isa, "opt": "-O0",
                            "defs": ["-DFASTOR_USE_VECTORISED_EXPR_ASSIGN"] if vea else [], "calls": calls})
+    # TensorMap parents (a map over the storage of A; its slices are always the generic n-D view classes): one dynamic
+    # group per configuration with the rank rotating, fixed views on three configurations
+    for ci, (isa, sz) in enumerate(cfgs):
+        V = G.vwidth(isa, sz)
+        for which in (([("a1", "a2", "a3")[(ci // 2 + seed) % 3]] if ci % 2 != seed % 2 else []) if quick else ["a1", "a2", "a3"]):
+            dims = shapes(V, which)
+            r2 = random.Random(rng.random())
+            sc = scripts(dims, V, r2, quick)
+            if quick:
+                sc = r2.sample(sc, min(len(sc), 160))
+            rd = tuple(1 for _ in dims)
+            calls = ['VWP(Sym%d, %s, %s, "%s");' % (sz, c05.tup(rd), c05.tup(dims), s) for s in sc]
+            groups.append({"key": "%s/sz%d/vea0/map-%s" % (isa, sz, which), "header": "view_write_sym.h", "isa": isa, "opt": "-O0", "defs": [], "calls": calls})
+        if not quick or ci % 2 == seed % 2:
+            fam = [("g1", (2 * V + 3,), [(1, V + 2, 1)]), ("g2", (4, V + 3), [(1, 4, 2), (1, V + 2, 1)]),
+                   ("g3", (2, 3, 2 * V), [(0, 1, 1), (1, 3, 1), (0, V, 1)]), ("g1s", (2 * V + 5,), [(0, -1, 2)])]
+            for (name, dims, fseqs) in ([fam[(ci // 2 + seed) % 4]] if quick else fam):
+                r2 = random.Random(rng.random())
+                sc = []
+                for _ in range(40 if quick else 300):
+                    ws = [alias_write(dims, V, r2, dst=list(fseqs), na=r2.random() < 0.6)]
+                    for _ in range(r2.randint(0, 2)):
+                        ws.append(alias_write(dims, V, r2, dst=list(fseqs), na=r2.random() < 0.2, keep=True, rk=r2.choice("aasb")))
+                    sc.append(cap_mul("/".join(ws)))
+                rd = tuple(G.ext_of(t, n) for t, n in zip(fseqs, dims))
+                fs = "(" + ", ".join("fseq<%d,%d,%d>" % t for t in fseqs) + ")"
+                calls = ['VWPF(Sym%d, %s, %s, %s, "%s");' % (sz, c05.tup(rd), c05.tup(dims), fs, s) for s in sc]
+                groups.append({"key": "%s/sz%d/vea0/map-%s" % (isa, sz, name), "header": "view_write_sym.h", "isa": isa, "opt": "-O0", "defs": [], "calls": calls})
     # the FASTOR_NO_ALIAS=1 cell (documented: "no aliasing is assumed", the guard is compiled out): the flag is stored
     # and never tested, so every aliased statement takes the in-order path; recorded separately (route …-nal)
     for (isa, sz) in ([("avx2", 4)] if quick else [("sse2", 8), ("avx2", 4), ("avx512", 4)]):
@@ -175,8 +203,21 @@ def real_groups(tier, seed):
                         calls = ['VWR(%s, %s, %s, %du, "%s");' % (t, c05.tup(rd), c05.tup(dims), seed * 1000 + k, s) for k, s in enumerate(sc)]
                         groups.append({"key": "real/%s/%s/vea%d/%s" % (isa, t, vea, which), "header": "view_write_real.h", "isa": isa, "opt": "-O2",
                                        "defs": ["-ffp-contract=off"] + (["-DFASTOR_USE_VECTORISED_EXPR_ASSIGN"] if vea else []), "pre": "", "calls": calls})
+                # a TensorMap parent on the real types: dynamic view on every other cell (quick), fixed on the remaining ones
+                if not quick or (ci + seed) % 3 == 1:
+                    which = ("a1", "a2", "a3")[(ci // 3 + seed) % 3]
+                    dims = shapes(V, which)
+                    r2 = random.Random(rng.random())
+                    sc = []
+                    for k in range(100 if quick else 800):
+                        na = r2.random() < 0.75
+                        sc.append(alias_write(dims, V, r2, na=na, perfect=(not na and r2.random() < 0.6), ops=G.OPS5))
+                    rd = tuple(1 for _ in dims)
+                    calls = ['VWRP(%s, %s, %s, %du, "%s");' % (t, c05.tup(rd), c05.tup(dims), seed * 1000 + k, s) for k, s in enumerate(sc)]
+                    groups.append({"key": "real/%s/%s/vea0/map-%s" % (isa, t, which), "header": "view_write_real.h", "isa": isa, "opt": "-O2",
+                                   "defs": ["-ffp-contract=off"], "pre": "", "calls": calls})
                 # a fixed view with the flag on real types: every other cell
-                if not quick or (ci + seed) % 2 == 0:
+                if not quick or (ci + seed) % 3 == 0:
                     fam = [("g1", (2 * V + 3,), [(1, V + 2, 1)], 0), ("g2", (4, V + 3), [(1, 4, 2), (1, V + 2, 1)], 1),
                            ("g1s", (2 * V + 5,), [(0, -1, 2)], 1), ("g2s", (3, 2 * V + 1), [(0, -1, 1), (0, -1, 2)], 0),
                            ("g3", (2, 3, 2 * V), [(0, 1, 1), (1, 3, 1), (0, V, 1)], 0), ("g3s", (2, 3, V + 2), [(0, -1, 1), (0, -1, 2), (1, -1, 1)], 0)]
@@ -192,8 +233,9 @@ def real_groups(tier, seed):
                         rd = tuple(G.ext_of(x, n) for x, n in zip(fseqs, dims))
                         G.REVERSED_P[0] = 0.1
                         fs = "(" + ", ".join("fseq<%d,%d,%d>" % x for x in fseqs) + ")"
-                        calls = ['VWRF(%s, %s, %s, %s, %du, "%s");' % (t, c05.tup(rd), c05.tup(dims), fs, seed * 1000 + k, s) for k, s in enumerate(sc)]
-                        groups.append({"key": "real/%s/%s/vea%d/%s" % (isa, t, vea, name), "header": "view_write_real.h", "isa": isa, "opt": "-O2",
+                        usemap = (ci // 2) % 2 == 1
+                        calls = ['%s(%s, %s, %s, %s, %du, "%s");' % ("VWRPF" if usemap else "VWRF", t, c05.tup(rd), c05.tup(dims), fs, seed * 1000 + k, s) for k, s in enumerate(sc)]
+                        groups.append({"key": "real/%s/%s/vea%d/%s%s" % (isa, t, vea, "map-" if usemap else "", name), "header": "view_write_real.h", "isa": isa, "opt": "-O2",
                                        "defs": ["-ffp-contract=off"] + (["-DFASTOR_USE_VECTORISED_EXPR_ASSIGN"] if vea else []), "pre": "", "calls": calls})
     finally:
         G.REVERSED_P[0] = 0.0
